@@ -181,6 +181,8 @@ theorem Step.nodes_subBuilt (s : Step) (h : s.subSupported = true) :
     | each g => exact nodes_elementwise _ _ rfl (each_parOK' n g).1
     | rev => exact absurd h (by simp [Step.subSupported, BatchFn.supported])
     | sumall => exact absurd h (by simp [Step.subSupported, BatchFn.supported])
+    | droplast => exact absurd h (by simp [Step.subSupported, BatchFn.supported])
+    | dupfirst => exact absurd h (by simp [Step.subSupported, BatchFn.supported])
   | mapValues f => exact nodes_elementwise _ _ rfl trivial
   | filterValues p => exact nodes_elementwise _ _ rfl trivial
   | mapValuesBatches n f =>
@@ -188,6 +190,8 @@ theorem Step.nodes_subBuilt (s : Step) (h : s.subSupported = true) :
     | each g => exact nodes_elementwise _ _ rfl (each_parOK' n g).2
     | rev => exact absurd h (by simp [Step.subSupported, BatchFn.supported])
     | sumall => exact absurd h (by simp [Step.subSupported, BatchFn.supported])
+    | droplast => exact absurd h (by simp [Step.subSupported, BatchFn.supported])
+    | dupfirst => exact absurd h (by simp [Step.subSupported, BatchFn.supported])
   | unkey => exact nodes_elementwise _ _ rfl trivial
   | swapkv => exact nodes_elementwise _ _ rfl trivial
   | values => exact nodes_elementwise _ _ rfl trivial
@@ -255,6 +259,25 @@ theorem Step.nodes_subBuilt (s : Step) (h : s.subSupported = true) :
   | customOp n => exact nodes_elementwise _ _ rfl trivial
   | mapSideMap => exact nodes_elementwise _ _ rfl trivial
   | join k rsrc rsteps => exact absurd h (by simp [Step.subSupported])
+  | tryMapP p => exact nodes_elementwise _ _ rfl trivial
+  | tryFlatMap f p =>
+    intro nd hnd
+    simp only [Step.apply, List.nil_append, List.mem_cons, List.mem_nil_iff, or_false] at hnd
+    rcases hnd with rfl | rfl
+    · exact subBuilt_of_estep (.map (tryFlatF f p)) trivial
+    · exact subBuilt_of_estep (.map (fun x => x)) trivial
+  | resMap f => exact nodes_elementwise _ _ rfl trivial
+  | resFilter p => exact nodes_elementwise _ _ rfl trivial
+  | mapSideMapP pairs => exact nodes_elementwise _ _ rfl trivial
+  | customValueOp n cost =>
+    intro nd hnd
+    simp only [Step.apply, List.nil_append, List.mem_singleton] at hnd
+    subst hnd
+    refine .stateless _ ?_
+    intro op hop ps
+    simp only [List.mem_singleton] at hop
+    subst hop
+    simp [customValueDynOp]
 
 theorem steps_nodes_subBuilt (steps : List Step) (h : steps.all Step.subSupported = true) :
     ∀ nd ∈ steps.flatMap (Step.apply []), SubBuilt nd := by
